@@ -21,9 +21,16 @@ LEVEL_TEXT = ("trace log: TLC model-checks the recorder specification (per-threa
               "images: TLC checks the laws of the index map of each of the six writers on the whole bounded domain (in-bounds, bijection "
               "between payload positions and selected input components, row involution, header channels), enumerates every size of the "
               "domain, and every case is written by the real writer from an exact-size heap block under ASan/UBSan and decoded by an "
-              "independent reader (exhaustive over the bounded domain)")
+              "independent reader (exhaustive over the bounded domain); large images (wide, tall, mid-size, around the 1024 / 2048 / 4096 "
+              "boundaries) carry a content defined by a formula in the specification, TLC computes the decoded samples at sampled positions "
+              "and two modular sums over every file row, the driver fills the exact-size input from the mirrored formula (cross-checked "
+              "against spot values from TLC) and reports the same projections of the decoded file")
 LEVEL_NOTE = ("bounded: images - sizes 1..3 x 1..3, 5x2, 1x7, 7x1 (thorough: + 16x9, 2x33, 33x2, 64x3), one injective pixel content per "
-              "size (pairwise distinct component codes), exact-size and guard-padded buffers; trace log - all event sequences of total "
+              "size (pairwise distinct component codes), exact-size and guard-padded buffers; large images 300x200 and widths {1023, 1024, "
+              "1025, 2049, 2600} x heights {1, 3} and their transposes (thorough: {1023, 1024, 1025, 2047, 2048, 2049, 2600, 4097} x {1, 2, 3}) "
+              "with a formula-defined content, compared at sampled positions around every 256 / 768 / 1024 / 2048 boundary and both ends and "
+              "through two modular sums over all samples of every file row (a difference that cancels in both sums at unsampled "
+              "positions would be missed); trace log - all event sequences of total "
               "length <= 5 (thorough 6) on <= 3 threads living until saveLog and of total length <= 3 (thorough 4) with every pattern of "
               "thread lifetimes, nesting depth <= 3, names / categories / counter values chosen by thread and position, "
               "law checking on 2 threads x 3 events (thorough 3 x 3 in creation order and 2 x 4), long logs of 0, 1, 8191, 8192, 8193, 16384, 16385, 24576 events per "
@@ -498,8 +505,47 @@ def make_tmp(tag):
     return d
 
 
+BIG_WHAT = ("PixLaws, index laws on a large size by counting, then one case per writer x size: sampled positions around every block "
+            "boundary + per-row sums of every sample")
+
+
+def gen_big_cases(quick, out):
+    """the three independent parts of ImageWritersBigGen, each its own TLC run, beside one another (the threads only run TLC
+    and read what it wrote; the bookkeeping is done by the caller)"""
+    import glob
+
+    def work(part):
+        try:
+            cfg = "ImageWritersBigGen_%s%s.cfg" % (part, "" if quick or part == "mid" else "_thorough")
+            d = os.path.join(tla.WORK, "cases", "c20-images-" + part)
+            os.makedirs(d, exist_ok=True)
+            prefix = os.path.join(d, "cases-%d" % os.getpid())
+            for f in glob.glob(prefix + "*"):
+                os.remove(f)
+            r = tla.run_tlc(os.path.join(SPEC_IMG, "ImageWritersBigGen.tla"), os.path.join(SPEC_IMG, cfg), workers=1, timeout=3000,
+                            env={"OUT": prefix}, tag="c20-images-" + part)
+            if not r.ok:
+                raise tla.InfraError("case-generation module ImageWritersBigGen/%s failed: violated=%s error=%s\n%s" % (cfg, r.violated, r.error, r.out[-2500:]))
+            cases = []
+            for f in sorted(glob.glob(prefix + "*")):
+                with open(f) as fh:
+                    cases += [json.loads(line) for line in fh if line.strip()]
+                os.remove(f)
+            if not cases:
+                raise tla.InfraError("ImageWritersBigGen/%s emitted no cases" % cfg)
+            out[part] = (cfg, r, sort_keys(cases))
+        except Exception as ex:
+            out[part] = ex
+    ths = [threading.Thread(target=work, args=(p,)) for p in ("wide", "tall", "mid")]
+    for t in ths:
+        t.start()
+    return ths
+
+
 def run_images(chk, quick, tmp):
     exe = build.build("drv_files", san=SAN)
+    big = {}
+    ths = gen_big_cases(quick, big)
     cases = sort_keys(funcheck.gen_cases(chk, SPEC_IMG, "ImageWritersGen", "ImageWritersGen.cfg" if quick else "ImageWritersGen_thorough.cfg",
                                          "c20-images", workers=1,
                                          what="index-map laws of the six writers on every size (in-bounds, bijective, row involution, header), "
@@ -520,6 +566,55 @@ def run_images(chk, quick, tmp):
     chk.add_sample({"kind": "image-case", "case": smp}, maxn=8)
     smp = next(c for c in cases if c["a"] == "writePFM_vec3fa" and c["arg"]["w"] == 1 and c["arg"]["h"] == 2 and c["arg"]["buf"] == "exact")
     chk.add_sample({"kind": "image-case", "case": smp}, maxn=8)
+
+    # large images: wide, tall, mid-size (pattern content, sampled positions + per-row aggregates)
+    for t in ths:
+        t.join()
+    bcases = []
+    for part in ("wide", "tall", "mid"):
+        if isinstance(big.get(part), Exception):
+            raise big[part]
+        cfg, r, cs = big[part]
+        chk.cov["models"].append({"module": "ImageWritersBigGen/" + cfg, "cases_emitted": len(cs), "wall_s": round(r.wall, 1), "what": BIG_WHAT})
+        chk.cov["states"] += 1
+        chk.cov["transitions"] += 1
+        chk.log("TLC ImageWritersBigGen/%s: laws checked, %d cases emitted in %.1fs" % (cfg, len(cs), r.wall))
+        bcases += cs
+    run_big_images(chk, exe, bcases, "c20-images-big", meta)
+
+
+def run_big_images(chk, exe, bcases, tag, meta):
+    hs = [[c] for c in bcases]
+    chk.count_actions(hs)
+    res, rc, stderr, wall = run_parallel(exe, hs, tag, 6, meta)
+    # harness self-check: the driver's mirror of Pix must reproduce the spot values TLC computed (else the inputs are not the
+    # specification's inputs and nothing observed means anything)
+    compared = {w: {"w>1024": 0, "w>2048": 0, "h>1024": 0, "h>2048": 0} for w in WRITERS}
+    for i, c in enumerate(bcases):
+        r = res.get(i) or {}
+        o = (r.get("obs") or [None])[0]
+        if isinstance(o, dict) and "spots" in o:
+            if o["spots"] != c["arg"]["spots"]:
+                raise tla.InfraError("the driver's pattern formula disagrees with the specification's Pix: case %s %dx%d pattern %d: TLC %s, driver %s"
+                                     % (c["a"], c["arg"]["w"], c["arg"]["h"], c["arg"]["pat"], c["arg"]["spots"], o["spots"]))
+        if isinstance(o, dict) and o.get("decodable") and "rowsum" in o:
+            for k, v in (("w>1024", c["arg"]["w"] > 1024), ("w>2048", c["arg"]["w"] > 2048), ("h>1024", c["arg"]["h"] > 1024), ("h>2048", c["arg"]["h"] > 2048)):
+                if v:
+                    compared[c["a"]][k] += 1
+    n = report_mismatches(chk, hs, res, rc, stderr, tag, "SaveImage", meta, exe)
+    chk.log("SaveImage: %d large images (wide / tall / mid-size) written by the real writers and decoded (%d mismatching) in %.1fs" % (len(hs), n, wall))
+    if not chk.is_replay:
+        for w in WRITERS:
+            for k in ("w>1024", "w>2048", "h>1024", "h>2048"):
+                if compared[w][k] == 0 and n == 0:
+                    raise tla.InfraError("vacuity guard: no decoded case with %s for %s" % (k, w))
+    chk.cov["distinct_nontrivial"] += len({json.dumps([c["a"], c["arg"]["w"], c["arg"]["h"]]) for c in bcases})
+    chk.cov["large_image_cases"] = {"cases": len(bcases), "compared_by_writer": compared,
+                                    "samples_in_row_aggregates": sum(c["arg"]["w"] * c["arg"]["h"] * len(c["exp"]["samples"][0][0]) for c in bcases),
+                                    "sampled_positions": sum(len(c["arg"]["rows"]) * len(c["arg"]["cols"]) for c in bcases)}
+    smp = next((c for c in bcases if c["a"] == "writePGM" and c["arg"]["w"] == 1025 and c["arg"]["h"] == 1), None)
+    if smp:
+        chk.add_sample({"kind": "large-image-case", "case": smp}, maxn=10)
 
 
 def run_tracelog(chk, quick, tmp, rnd):
@@ -653,6 +748,8 @@ def run(chk, replay=None):
         "a file is decodable when magic, width, height and maxval / scale parse, one whitespace byte follows and the payload holds all "
         "samples; PFM samples are decoded as the scale token says (sign = byte order, magnitude = factor); bytes after the payload are ignored",
         "out-of-bounds reads are observed through AddressSanitizer on a heap block of exactly width*height pixels",
+        "large images: the driver's C++ mirror of Pix(pat, x, y, k) is the specification's function (checked on six spot values per case; "
+        "a disagreement is an infrastructure error)",
         "a recording thread is a joinable std::thread created and joined by the driver's main thread, which stamps both on one logical "
         "clock; threads of which one was joined before the other was created may share a tid in the log (the OS recycles std::thread::id), "
         "their sequences then follow one another in that order; threads alive at the same time must have different tids; which tid a "
@@ -669,7 +766,8 @@ def run(chk, replay=None):
     finally:
         shutil.rmtree(tmp, ignore_errors=True)
     chk.cov["rule"] = ("image cases: TLC enumerates writer x size x buffer kind after checking the index-map laws; a case is non-trivial when the "
-                       "image has more than one pixel; distinct = distinct (writer, width, height, buffer).  trace-log histories: one shortest "
+                       "image has more than one pixel; distinct = distinct (writer, width, height, buffer); large images: one case per writer x "
+                       "size, all non-trivial.  trace-log histories: one shortest "
                        "path of TLC's complete state graph to every abstract state in which every created thread has recorded (second instance: "
                        "and some thread has ended), followed by SaveLog (both process-name variants up to two "
                        "events, alternating beyond), plus seeded random walks containing a SaveLog; one process per history; non-trivial = "
